@@ -835,6 +835,7 @@ class Exec:
             ex.ret_sink = []
             ex.exc_sinks = [[]]
             ex.loop_sinks = [[]]
+            ex.break_sinks = [[]]
             q = p.copy()
             self.havoc(q, written, "dry")
             try:
